@@ -167,6 +167,10 @@ fn resolve(mode: &SeqMode, prev: &Option<TableKind>, def_al: u8, def: &[i32], sy
             Ok(TableKind::Rle(*c))
         }
         SeqMode::Repeat => prev.clone().ok_or_else(|| "repeat mode without a previous table".to_string()),
+        SeqMode::Fse(al, probs) => {
+            out_tbl.extend(write_description(*al, probs));
+            Ok(TableKind::Fse(build_table(*al, probs)))
+        }
     }
 }
 
